@@ -152,6 +152,9 @@ type dsys struct {
 	stale bool
 	last  int
 	shown bool
+	// which cells were the covered column of a displayed wide rune at the previous Show
+	cov        []bool
+	covW, covH int
 }
 
 func (d *dsys) Close() { d.s.Fini() }
@@ -173,7 +176,7 @@ func (d *dsys) Key() string {
 		c := &d.sh.Cells[i]
 		fmt.Fprintf(&sb, "%d%v%v%v;", c.R, c.Comb, c.S, c.ChangedSince)
 	}
-	fmt.Fprintf(&sb, "%v%v", d.sh.Default, d.stale)
+	fmt.Fprintf(&sb, "%v%v%v%d", d.sh.Default, d.stale, d.cov, d.covW)
 	return sb.String()
 }
 
@@ -237,8 +240,38 @@ func (d *dsys) Apply(i int) (sig, desc string) {
 		for k := range d.sh.Cells {
 			d.sh.Cells[k].ChangedSince = false
 		}
+		d.recordCovered()
 	}
 	return "", ""
+}
+
+// recordCovered remembers which cells were the covered column of a displayed wide rune at this
+// Show (the layout walk of compare).
+func (d *dsys) recordCovered() {
+	W, H := d.sh.W, d.sh.H
+	d.covW, d.covH = W, H
+	d.cov = make([]bool, W*H)
+	for y := 0; y < H; y++ {
+		covered := false
+		for x := 0; x < W; x++ {
+			if covered {
+				covered = false
+				d.cov[y*W+x] = true
+				continue
+			}
+			if _, wd := shadow.Shown(d.sh.At(x, y).R); wd == 2 && x != W-1 {
+				covered = true
+			}
+		}
+	}
+}
+
+// wasCovered: the cell was a covered column at the previous Show of a screen of this size.
+func (d *dsys) wasCovered(x, y int) bool {
+	if d.covW != d.sh.W || d.covH != d.sh.H || d.cov == nil {
+		return false
+	}
+	return d.cov[y*d.covW+x]
 }
 
 func (d *dsys) compare(o op, full bool) string {
@@ -252,7 +285,10 @@ func (d *dsys) compare(o op, full bool) string {
 				covered = false
 				// second column of a wide rune: what the page holds there is not fixed, but it
 				// must not be painted in a Show in which neither it nor the wide rune changed
-				if !full && pc.stamp == pg.stamp && pc.drawn && !sc.ChangedSince && !d.sh.At(x-1, y).ChangedSince {
+				// (a cell that was not covered at the previous Show - a change further left can
+				// uncover the wide rune to its left through a chain of overlaps - has to be
+				// blanked, which is a draw)
+				if !full && pc.stamp == pg.stamp && pc.drawn && !sc.ChangedSince && !d.sh.At(x-1, y).ChangedSince && d.wasCovered(x, y) {
 					return fmt.Sprintf("overdraw: cell (%d,%d), covered by the wide rune to its left, was drawn although nothing changed since the previous Show", x, y)
 				}
 				// the covered column has no content of its own: whatever was there before the
